@@ -474,7 +474,7 @@ class Env:
         return False
 
     def f32_sum(self, e):
-        """Trusted lemma L-f32sum (DESIGN.md 5): a left-to-right f32 sum of at most 4 addends, each a converted f64/usize
+        """Lemma L-f32sum (derived from the rounding model on every run: tierb_async.f32sum_lemma): a left-to-right f32 sum of at most 4 addends, each a converted f64/usize
         value or a quotient of such (at most 3 roundings per addend), deviates from the exact real sum by at most
         2^-21 * sum|addend| (each addend: relative (1+2^-24)^3-1; three additions: relative 2^-24 on partial sums; no
         overflow/underflow in the configuration domain).  Returns a fresh real constrained accordingly, or None if `e`
